@@ -122,6 +122,14 @@ def escaping_terms():
     for sp in ['a"b', "a'b", "a<b", "a&b", "a>b", "a&amp;b", "\"'<>&"]:
         t = row(mi("y", title=sp), mo("=", **{"data-note": sp}), mn("2", href=sp))
         out.append(("esc-attr", t))
+    # annotation encodings become part of an attribute NAME in the result (data-annotation-<encoding>): media types with a suffix or
+    # parameters, blanks, quotes, non-ASCII, a leading digit
+    for i_, enc in enumerate(["image/svg+xml", "application/x-tex; charset=UTF-8", "a b", "x=y", "Te'X", 'Te"X', "\u03c0", "1st", "<x>", ""]):
+        out.append((f"esc-annotation-{i_}", el("semantics", mi("x"), T("annotation", text="z", encoding=enc))))
+        out.append((f"esc-annotation-xml-{i_}", row(mi("y"), mo("="), el("semantics", mi("x"), T("annotation-xml", kids=[mi("q")], encoding=enc)))))
+    # attributes in the xml namespace next to an attribute with the same local name; the same for a declared prefix
+    out.append(("esc-xml-attr-a", row(mi("x", **{"xml:lang": "en", "lang": "fr"}), mo("+"), mn("1", **{"xml:space": "preserve", "xml:id": "q7"}))))
+    out.append(("esc-xml-attr-b", row(mi("x", **{"lang": "fr", "xml:lang": "en"}), mo("+"), mn("1"))))
     return out
 
 
